@@ -74,6 +74,8 @@ pub struct Obs {
     /// content-length field of the record header, in words
     pub header_words: i32,
     pub write_ok: bool,
+    /// the record (header included) comes out byte-identical through short-writing destinations
+    pub short_write_same: bool,
 }
 
 pub fn observe(case: &Case) -> Obs {
@@ -90,7 +92,20 @@ pub fn observe(case: &Case) -> Obs {
     }
     let b = d.data();
     let header_words = i32::from_be_bytes(b[104..108].try_into().unwrap());
-    Obs { announced, emitted, header_words, write_ok }
+    // the same through destinations that accept fewer bytes than offered per call
+    let mut short_write_same = true;
+    if emitted <= 4096 {
+        for chunk in [3usize, 5] {
+            let d2 = Dev::quiet(vec![]);
+            d2.set_chunking(crate::dev::Chunking::Uniform(chunk));
+            {
+                let mut w = ShapeWriter::new(d2.clone());
+                write_shape(&mut w, &lib).expect("write");
+            }
+            short_write_same &= d2.data() == b;
+        }
+    }
+    Obs { announced, emitted, header_words, write_ok, short_write_same }
 }
 
 pub fn judge(case: &Case, o: &Obs) -> Vec<(String, String)> {
@@ -101,6 +116,9 @@ pub fn judge(case: &Case, o: &Obs) -> Vec<(String, String)> {
     }
     if o.announced != o.emitted {
         out.push((format!("{}:announced-vs-emitted", tn), format!("size_in_bytes() = {}, write_to emitted {}", o.announced, o.emitted)));
+    }
+    if !o.short_write_same {
+        out.push((format!("{}:record-differs-under-short-writes", tn), "record header / content differ when the destination accepts 3 resp. 5 bytes per call".into()));
     }
     if o.header_words as i64 * 2 != o.emitted as i64 + 4 {
         out.push((format!("{}:record-header-length", tn), format!("record header says {} words, content is {} + 4 bytes", o.header_words, o.emitted)));
@@ -135,7 +153,7 @@ fn cases(tier: Tier) -> Vec<Case> {
                 }
             }
             Family::Multipoint => {
-                for n in (1..=24).chain([100, 1000, 65536]) {
+                for n in (1..=4200).chain([65536, 65537, 70001, 131073]) {
                     for mvar in if n <= 4 { 0..5u8 } else { 0..1u8 } {
                         out.push(Case { ty, lens: vec![n], kinds: vec![0], closed: false, mvar });
                     }
@@ -178,8 +196,14 @@ fn cases(tier: Tier) -> Vec<Case> {
                         }
                     }
                 }
+                // every single-part size up to 4200
+                for n in (maxl + 1)..=4200usize {
+                    if n >= min {
+                        out.push(Case { ty, lens: vec![n], kinds: vec![0], closed: false, mvar: 0 });
+                    }
+                }
                 // ladder of large shapes
-                for n in [10usize, 100, 1000, 65536] {
+                for n in [10usize, 100, 1000, 65536, 65537, 70001, 131073] {
                     out.push(Case { ty, lens: vec![n], kinds: vec![if fam == Family::Multipatch { 0 } else { 0 }], closed: false, mvar: 0 });
                 }
                 for p in [100usize, 1000] {
@@ -206,6 +230,7 @@ fn selftest() -> (u64, u64) {
             o.announced += 4;
             o.emitted += 4
         },
+        |o| o.short_write_same = false,
     ] {
         let mut o = observe(&case);
         f(&mut o);
